@@ -65,7 +65,7 @@ def check(d: Path, props=PROPS) -> dict:
     res = {"dir": str(d), "fired": [], "undecided": [], "lines": {}}
     try:
         selftest.make_copy(work)
-        rc, o = sh(["git", "apply", "--include=src/python/*", "--include=specs/*", "--include=docs/*", str(d / "patch.diff")], cwd=work)
+        rc, o = sh(["git", "apply", "--include=src/python/*", "--include=specs/*", "--include=docs/*", str((d / "patch.diff").resolve())], cwd=work)
         if rc:
             res["error"] = "apply: " + o[-300:]
             return res
